@@ -1,6 +1,7 @@
 package main
 
 import (
+	"go/token"
 	"strings"
 
 	"golang.org/x/tools/go/ssa"
@@ -156,4 +157,54 @@ func (w *World) rdnSource(root *ssa.Function, seq ssa.Value, at ssa.Instruction)
 		return w.ExprIn(root, call.Call.Args[paramIndex(p)])
 	}
 	return ""
+}
+
+// c16FreshTargets: every asn1.Unmarshal of the attestation package decodes into storage created for that call - a
+// local variable or a new(T) of the calling function (through a helper: of each of the helper's callers). encoding/asn1
+// leaves the fields of absent OPTIONAL elements untouched, so a recycled or shared target carries one certificate's
+// extensions, validity or key into the next parse.
+func c16FreshTargets(c *Ctx) {
+	const rule = "R6.fields"
+	w := c.w
+	n := 0
+	var fresh func(v ssa.Value, depth int) (bool, string)
+	fresh = func(v ssa.Value, depth int) (bool, string) {
+		v = throughCell(strip(v))
+		switch x := v.(type) {
+		case *ssa.Alloc:
+			return true, ""
+		case *ssa.FieldAddr:
+			return fresh(x.X, depth)
+		case *ssa.IndexAddr:
+			return fresh(x.X, depth)
+		case *ssa.Parameter:
+			h := x.Parent()
+			sites := w.callSites(h)
+			if depth > 2 || len(sites) == 0 || w.dynCallable(h) || token.IsExported(h.Name()) {
+				return false, "the target is parameter " + x.Name() + " of " + shortFn(h)
+			}
+			i := paramIndex(x)
+			for _, s := range sites {
+				if i < 0 || i >= len(s.Common().Args) {
+					return false, "the target is parameter " + x.Name() + " of " + shortFn(h)
+				}
+				if ok, why := fresh(s.Common().Args[i], depth+1); !ok {
+					return false, why
+				}
+			}
+			return true, ""
+		}
+		return false, "the target is " + w.Short(v)
+	}
+	for _, fn := range w.FuncsOfPkg("attestation/yubiattest") {
+		for _, call := range callsTo(fn, "encoding/asn1.Unmarshal") {
+			if len(call.Common().Args) < 2 {
+				continue
+			}
+			n++
+			ok, why := fresh(call.Common().Args[1], 0)
+			c.Check(ok, rule, shortFn(fn)+"|asn1 decodes into fresh storage", w.Pos(call.Pos()), "a local variable / new(T) of the call", "asn1.Unmarshal decodes into storage that outlives the call ("+why+"): fields of absent optional elements keep the previous certificate's values")
+		}
+	}
+	c.Floor(rule, n, 5, "asn1.Unmarshal calls in the attestation package")
 }
